@@ -260,4 +260,18 @@ theorem minor_optimum_score_is_spec (I : MinorInst) (σ : NVar → Rat) (h : I.b
       · by_cases hP : σ (.PH c.ai c.ri) = 1 <;> simp [hP, v1]
   rw [r1, r2, r3, r4, r5, r6]
 
+/-- **planted_minor_optimum_spec_zero** with zero-error evidence (clauses `PlantedMinor`, Props/C01Minor) every
+optimum of the refinement model reports an assignment of documented objective 0 -/
+theorem planted_minor_optimum_spec_zero (I : MinorInst) (copies : String → String → Nat) (choose : Nat → Option Nat)
+    (hP : PlantedMinor I copies choose) (σ : NVar → Rat) (h : I.build.Sat σ)
+    (hopt : ∀ τ, I.build.Sat τ → I.build.objective σ ≤ I.build.objective τ)
+    (hmiss : 0 ≤ I.minorMiss) (hadd : 0 ≤ I.minorAdd) (hph : 0 ≤ I.minorPhase)
+    (hdef : ∀ cs ∈ I.slots, ∀ m ∈ cs.1.defMuts, m ∈ I.mutations) :
+    I.build.objective σ = 0 ∧ I.specMinor (actOf σ) = 0 := by
+  obtain ⟨hs, h0⟩ := planted_minor_zero I copies choose hP
+  have hle : I.build.objective σ ≤ 0 := h0 ▸ hopt _ hs
+  have hge := minor_objective_nonneg I σ h hmiss hadd hph hdef
+  have e : I.build.objective σ = 0 := le_antisymm hle hge
+  exact ⟨e, by rw [← minor_optimum_score_is_spec I σ h hopt hdef, e]⟩
+
 end Aldy
